@@ -97,7 +97,21 @@ def s2_tasks(tier):
     # constant-target family: call / tail / jal to an absolute address given as a constant, at every low-12-bit phase of the distance
     for base in (0x20000000, 0x100000, 0x40, 0x100, 0x800, 0x1000):
         s2.append(dict(kind='consttarget', base=base))
+    # mnemonics written in upper / mixed case (accepted by the parser): sizes, labels behind them and targets must be those of the lower-case spelling
+    s2.append(dict(kind='mncase'))
     return s2
+
+
+def mncase_items():
+    I = progs.I
+    def T(it, text):
+        return dict(it, text=text)
+    return [T(L.li(9, 1), 'LI x9, 1'), T(L.li(9, 0x12345), 'Li x9, 0x12345'), T(L.li(8, 0x3000), 'lI x8, 0x3000'), T(L.call('A'), 'CALL A'), T(L.call('A', tail=True), 'Tail A'),
+            T(I('jal', rd=0, imm=('offset', 'A')), 'J A'), T(I('jal', rd=1, imm=('offset', 'A')), 'JAL A'), T(I('jal', rd=5, imm=('offset', 'A')), 'Jal x5, A'),
+            T(I('beq', rs1=8, rs2=0, imm=('offset', 'A')), 'BEQ x8, x0, A'), T(I('beq', rs1=9, rs2=0, imm=('offset', 'A')), 'BEQZ x9, A'),
+            T(I('bltu', rs1=6, rs2=5, imm=('offset', 'A')), 'BGTU x5, x6, A'), T(I('addi', rd=8, rs1=8, imm=1), 'ADDI x8, x8, 1'), T(I('addi', rd=0, rs1=0, imm=0), 'NOP'),
+            T(I('addi', rd=8, rs1=9, imm=0), 'MV x8, x9'), T(I('jalr', rd=0, rs1=1, imm=0), 'RET'), T(L.cinst('c.j', imm=('offset', 'A')), 'C.J A'),
+            T(I('lw', rd=9, rs1=8, imm=4), 'LW x9, 4(x8)'), T(I('add', rd=5, rs1=6, rs2=7), 'Add x5, x6, x7')]
 
 
 FAR_PREFIX = {
@@ -124,6 +138,18 @@ def s2_programs(task):
             yield [jal('A')] + mid + [L.align(2), L.label('A'), tail]
             yield [L.label('A'), tail] + mid + [L.align(2), jal('A')]
             yield [L.call('A')] + mid + [L.label('B'), L.align(4), L.label('A'), tail, L.data('dw B', ('<I', ('label', 'B')))]
+        return
+    if task.get('kind') == 'mncase':
+        tail = progs.I('add', rd=5, rs1=6, rs2=7)
+        jal = lambda l: progs.I('jal', rd=0, imm=('offset', l))
+        beq = lambda l: progs.I('beq', rs1=8, rs2=0, imm=('offset', l))
+        items = mncase_items()
+        for it in items:
+            yield [it, L.label('A'), tail, jal('A')]
+            yield [L.label('A'), tail, it, L.label('B'), tail, jal('B'), beq('A')]
+            yield [beq('B'), L.label('A'), it, it, L.label('B'), tail, L.call('A')]
+            for it2 in items:
+                yield [L.label('A'), it, it2, L.label('B'), jal('B'), jal('A')]
         return
     if task.get('kind') == 'consttarget':
         base = task['base']
